@@ -275,6 +275,7 @@ type BatchOutcome struct {
 	Windows     int
 	Tasks       int
 	DecisionCap bool
+	TaskIDs     []string // log ids of the runs that reached their first line (run.start hook), sorted
 	Victim      *diskVictim // line whose result streams met injected write errors (excluded from summary and solo oracles)
 }
 
@@ -400,6 +401,10 @@ func (e *Env) RunBatch(root string, lines []string, spec *SchedSpec, disk *SimDi
 	out.MaxParked = s.maxParked
 	out.OpensBy = s.opensBy
 	out.Tasks = len(s.tasks)
+	for id := range s.tasks {
+		out.TaskIDs = append(out.TaskIDs, id)
+	}
+	sort.Slice(out.TaskIDs, func(i, j int) bool { return logIDNum(out.TaskIDs[i]) < logIDNum(out.TaskIDs[j]) })
 	return out
 }
 
